@@ -33,7 +33,7 @@ def _tasks(rng, b, nt, want_optional):
             kw["deadline"] = rng.random() < 0.7
         if rng.random() < 0.2:
             kw["work"] = rng.choice((1, 2))
-        nm = "ABC"[i]
+        nm = "ABCDE"[i]
         if k[0] == "F":
             ts.append(b.task(nm, "F", dur=int(k[1]), **kw))
         elif k == "Z":
@@ -312,13 +312,15 @@ def _objective(rng, b, ts, c, H):
     return True
 
 
-def one(rng, focus):
-    H = rng.choice((4, 4, 5))
-    b = PB(H, tag="mixed-" + focus)
+def one(rng, focus, large=False):
+    """large=True: 4-5 tasks on a horizon of 7-8 (beyond what TLC enumerates completely: V(P) is then SAMPLED by
+    TLC's simulation mode, and whatever the library returns is validated by TimelineTrace)."""
+    H = rng.choice((7, 8)) if large else rng.choice((4, 4, 5))
+    b = PB(H, tag=("large-mixed-" if large else "mixed-") + focus)
     c = _Ctx()
     c.costs = focus in ("indicator", "objective")
     c.no_interruption = focus == "objective"
-    nt = rng.choice((2, 3, 3))
+    nt = rng.choice((4, 5)) if large else rng.choice((2, 3, 3))
     ts, _ = _tasks(rng, b, nt, want_optional=focus == "optional")
     if focus == "optional" and not any(t["optional"] for t in b.p["tasks"]):
         b.p["tasks"][-1]["optional"] = True
@@ -339,7 +341,7 @@ def one(rng, focus):
         # "basic": nothing beyond tasks/resources
 
     add(focus)
-    for _ in range(rng.choice((1, 2, 2))):
+    for _ in range(rng.choice((2, 3)) if large else rng.choice((1, 2, 2))):
         add(rng.choice(("task", "task", "resource", "resource", "optional", "logic", "buffer")))
     if focus == "indicator":
         made = [i for i in (_indicator(rng, b, ts, c) for _ in range(rng.choice((2, 3)))) if i]
@@ -354,6 +356,13 @@ def one(rng, focus):
     if focus == "objective":
         _objective(rng, b, ts, c, H)
     return b.done()
+
+
+def fam_mixed_large(tier, seed, focus, n=None):
+    assert focus in GROUPS
+    rng = random.Random(f"large-mixed-{focus}-{seed}")
+    n = n or (30 if tier == "thorough" else 8)
+    return number([one(rng, focus, large=True) for _ in range(n)])
 
 
 def fam_mixed(tier, seed, focus, n=None):
